@@ -128,7 +128,15 @@ def check(cx):
                 moves = [n for n in g.nodes if n['kind'] == 'call' and n['name'].rsplit('::', 1)[-1] in ('push', 'insert', 'append', 'extend') and n['args']
                          and recv_class(n['args'][0]) == 'self.observers']
                 if f['n'] == 'load':
-                    res.append(Finding(ID, 'J2', cx.label(fn), bool(moves), 'load() appends the chamber to the live list' if moves else 'load() no longer moves the waiting subscribers', fn['span']))
+                    held = lock_scopes(g)
+                    acq = [n for n in g.nodes if n['kind'] == 'call' and n['name'] in ('rc::RcDeref::rc_deref', 'rc::RcDerefMut::rc_deref_mut') and n['args'] and recv_class(n['args'][0]) == 'self.chamber']
+                    atomic = bool(acq) and all(any(h[1] == 'self.observers' for h in held[n['id']]) for n in acq)
+                    ok = bool(moves) and atomic
+                    res.append(Finding(ID, 'J2', cx.label(fn), ok,
+                                       'load() moves the chamber into the live list under the observers guard' if ok else
+                                       ('load() no longer moves the waiting subscribers' if not moves else
+                                        'load() touches the chamber without holding the observers guard: between taking the waiting subscribers and appending them they are in neither list, so a concurrent emission misses them (or a terminal drops them)'),
+                                       fn['span']))
                 elif moves:
                     res.append(Finding(ID, 'J2', cx.label(fn), False, 'writes into the live list outside load()', fn['span'], [node_desc(g, moves[0])]))
     if not cx.control:
